@@ -1,4 +1,5 @@
 import NgVerif.Proofs.FileStore
+import NgVerif.Proofs.ChunkNames
 /-
   C12 — File storage returns the latest stored bytes under every layout option.
   `FileStore` models `FileAccessor` over an abstract file system (component lists → contents), with
@@ -55,5 +56,21 @@ theorem chunk_read_under_any_configuration (cfg : Cfg) (fs fs' : FS) (key : Stri
         q ≠ targetOf cfg mime (chunkPath cfg.flat key c) → fs.get q = none) :
     fetchChunk fs' key c = .ok (.bytes buf) :=
   fetch_chunk_after_store cfg fs fs' key c buf mime ow hs hfree
+
+/-- distinct chunks have distinct file names: in both layouts the name determines the key and all
+    six coordinates (decimal digits contain neither '-' nor '_'; `Nat.repr` is injective) -/
+theorem chunk_names_injective (flat : Bool) (key key' : String) (c c' : Nat × Nat × Nat × Nat × Nat × Nat)
+    (h : chunkPath flat key c = chunkPath flat key' c') : key = key' ∧ c = c' :=
+  chunkPath_inj flat key key' c c' h
+
+/-- FRAME: storing a chunk changes what `fetch_chunk` returns for NO other chunk — another key or
+    other coordinates — under any configuration, MIME type and prior file-system state (none of the
+    four candidate paths of the other chunk is the path written). -/
+theorem store_chunk_leaves_other_chunks_alone (cfg : Cfg) (fs fs' : FS) (key : String)
+    (c : Nat × Nat × Nat × Nat × Nat × Nat) (buf : Bytes) (mime : String) (ow : Bool)
+    (hs : storeChunk cfg fs key c buf mime ow = .ok fs')
+    (key' : String) (c' : Nat × Nat × Nat × Nat × Nat × Nat) (hne : ¬ (key = key' ∧ c = c')) :
+    fetchChunk fs' key' c' = fetchChunk fs key' c' :=
+  store_chunk_frame cfg fs fs' key c buf mime ow hs key' c' hne
 
 end NgVerif.Props.C12
